@@ -22,8 +22,17 @@ def _rod(h, form, interp, nel, p, Q="symbolic", seed=0):
     return lib.make_rod(h, interp=interp, mixed=mixed, constraints=cons, p=p, nel=nel, Q=Q, seed=seed)
 
 
-def reference(h, form="db", interp="Quaternion", nel=1, p=1, seed=0):
-    rod, Q, nn = _rod(h, form, interp, nel, p)
+def reference(h, form="db", interp="Quaternion", nel=1, p=1, seed=0, via_set=False):
+    if via_set:
+        # the reference configuration is changed AFTER construction through the public set_reference_strains
+        rod, Q0, nn = _rod(h, form, interp, nel, p, Q="curved", seed=seed)
+        Q = h.vec("Q", 7 * nn)
+        for k in range(nn):
+            P = np.array([Q[3 * nn + k + i * nn] for i in range(4)], dtype=object if h.sym else float)
+            h.assume(P @ P > 0, "reference quaternion nonzero")
+        rod.set_reference_strains(Q)
+    else:
+        rod, Q, nn = _rod(h, form, interp, nel, p)
     t = 0.0
     u0 = np.zeros(rod.nu)
     h.eq("E_pot(Q) = 0", rod.E_pot(t, Q), 0.0)
@@ -116,5 +125,7 @@ def cases(tier, seed):
                     for f2 in (("db_c345", "mixed_c45") if nel == 1 or tier == "thorough" else ()):
                         cs.append(Case(f"reference/{interp}/p{p}/{f2}/nel{nel}", reference, dict(form=f2, interp=interp, nel=nel, p=p, seed=seed), timeout=T, hard=T * 8))
                         cs.append(Case(f"objectivity/{interp}/p{p}/{f2}/nel{nel}", objectivity, dict(form=f2, interp=interp, nel=nel, p=p, seed=seed), timeout=T, hard=T * 8))
+                if nel == 1 and form in ("db", "mixed"):
+                    cs.append(Case(f"reference/{tag}/via_set_reference_strains", reference, dict(form=form, interp=interp, nel=nel, p=p, seed=seed, via_set=True), timeout=T, hard=T * 8))
                 cs.append(Case(f"resultant/{tag}", resultant, dict(form=form, interp=interp, nel=nel, p=p, seed=seed), timeout=T, hard=T * 8))
     return cs
